@@ -255,6 +255,10 @@ pub fn gen_int_lit(d: &mut D) -> IntCase {
     if d.ratio(1, 10) {
         body.push('_');
     }
+    if d.ratio(1, 6) {
+        // leading zeros (also after a radix prefix) are part of a valid literal and denote nothing
+        body = format!("{}{}", "0".repeat(d.range(1, 50)), body);
+    }
     let prefix = match radix {
         16 => "0x",
         2 => "0b",
@@ -269,7 +273,9 @@ pub fn gen_int_lit(d: &mut D) -> IntCase {
     let neg = d.ratio(1, 4);
     if quoted {
         // a quoted string stands as it is: build plausible and implausible spellings
-        let text = match d.below(6) {
+        let text = match d.below(8) {
+            // leading zeros change nothing for std's parsing, however many there are
+            6 | 7 => format!("{}{}{}", if neg { "-" } else if d.ratio(1, 4) { "+" } else { "" }, "0".repeat(d.range(1, 70)), dec),
             0 => format!("{}{}", if neg { "-" } else { "" }, dec),
             1 => format!("+{}", dec),
             2 => format!(" {}", dec),
@@ -555,7 +561,7 @@ pub fn run(args: &Args) -> bool {
     }
     if want("ints-random") {
         let ctx = Ctx::new("C11", "ints-random", vmodel::ev::mix_seed(args.seed, "C11", "ints-random", args.shard), args);
-        ctx.set_rule("random integer literals: radix 2/8/10/16, underscores, suffixes, sign, magnitudes near every boundary or up to 45 digits (140 bits in binary), and quoted spellings (+n, leading space, prefixed, suffixed) into all 24 targets; oracle as above with the harness's own arbitrary-precision radix conversion");
+        ctx.set_rule("random integer literals: radix 2/8/10/16, underscores, suffixes, sign, magnitudes near every boundary or up to 45 digits (140 bits in binary), and quoted spellings (+n, leading space, prefixed, suffixed, 1..70 leading zeros) into all 24 targets; oracle as above with the harness's own arbitrary-precision radix conversion");
         if let Some((_, case)) = &replay {
             let b: Vec<u8> = serde_json::from_value(case.clone()).expect("bad replay");
             ok &= run_list(&ctx, vec![b], check_int_bytes);
